@@ -22,24 +22,24 @@
      fits_slice r              the program has fewer than 2^63 - 1 operations (Go's bound on slice lengths)
 
    PARTIAL with respect to the property text (C14_full below):
-     - gen accepting the script for n >= 2 is NOT proved (it needs "the allocator succeeds on the translation
-       of every built script", i.e. wf_ir/consistent of Translate(Build(Decompile p)), which neither C04 nor
-       C06 provides); proved: gen refuses the n = 1 script with a diagnostic (C14_gen_refuses_one);
      - fmt -b is not modelled (acc.Build on operands that carry identifiers is outside model/Build.v);
+     - gen acceptance (n >= 2) is proved for the gen model of C06, which by a convention of that model answers
+       "toolarge" for a script containing a shift above 4096: the theorem carries script_huge t = false;
      - costs are exact rationals: float64 rounding for weights that are not small dyadic numbers is not
        modelled;
      - "byte-identical across runs" is, for a Gallina function, the statement that the output is a function
        of (expr, weights, sort order): C14_p_irrelevant, C14_schedule_irrelevant (C12) say that -p and the
        interleaving do not enter; that Go's unstable sort.Slice is deterministic is an assumption about the
        Go library (the harness oracle compares runs).
-   These four are covered by the oracle of the correspondence check on the real binary. *)
+   These are covered by the oracle of the correspondence check on the real binary. *)
 From Coq Require Import String.
 From Coq Require Import List NArith ZArith Bool QArith.
 From AV Require Import model.Par proofs.ParProofs.
 From AV Require Import model.Proto model.Bits model.Chain model.Program model.Ast model.Printer model.Peg model.Translate
   model.Build model.Calc model.Gen model.Ensemble model.Search model.SearchEns.
 From AV Require Import proofs.BuildProofs proofs.CalcSpec proofs.CalcProofs.
-From AV Require Import proofs.SearchProofs proofs.SearchBridge proofs.SearchMain proofs.SearchEnsProofs.
+From AV Require Import model.AstProto.
+From AV Require Import proofs.SearchProofs proofs.SearchBridge proofs.SearchMain proofs.SearchEnsProofs proofs.SearchGen proofs.SearchAll.
 Import ListNotations.
 Open Scope Z_scope.
 
@@ -98,17 +98,22 @@ Print Assumptions C14_search_consistent_partial.
 Theorem C14_search_ensemble_partial : forall orcs expr p w n,
   eval expr = Ok n -> 1 <= n -> Z.of_N (bitlen n) < 2 ^ 64 -> 1 <= p ->
   (forall rs, ens_model orcs n = Ok rs -> Forall fits_slice rs) ->
-  (exists rs o, ens_model orcs n = Ok rs /\ search_full orcs expr p w = Ok o /\ consistent_report w n rs o) \/
+  (exists rs o, ens_model orcs n = Ok rs /\ search_full orcs expr p w = Ok o /\
+                consistent_report w n rs o /\ gen_clause n o) \/
   (search_full orcs expr p w = Err ($"alg") /\ exists j, orcs j <> None).
-Proof. exact search_full_consistent. Qed.
+Proof. exact search_full_all. Qed.
 Print Assumptions C14_search_ensemble_partial.
 
 Theorem C14_search_stable_partial : forall expr p w n,
   eval expr = Ok n -> 1 <= n -> Z.of_N (bitlen n) < 2 ^ 64 -> 1 <= p ->
   (forall rs, ens_model (fun _ => None) n = Ok rs -> Forall fits_slice rs) ->
   exists rs o, ens_model (fun _ => None) n = Ok rs /\ search_full (fun _ => None) expr p w = Ok o /\
-               consistent_report w n rs o.
-Proof. exact search_full_stable. Qed.
+               consistent_report w n rs o /\ gen_clause n o.
+Proof.
+  intros expr p w n He Hn Hb Hp Hfit.
+  destruct (search_full_all (fun _ => None) expr p w n He Hn Hb Hp Hfit) as [H|[_ (j & Hj)]]; [exact H|].
+  exfalso. apply Hj. reflexivity.
+Qed.
 Print Assumptions C14_search_stable_partial.
 
 (* the same, starting from the text of a standard expression (C13): s renders the token list ts whose
@@ -117,9 +122,9 @@ Theorem C14_search_standard_expression_partial : forall s ts p w n,
   renders false s ts -> E ts n -> 1 <= n -> Z.of_N (bitlen n) < 2 ^ 64 -> 1 <= p ->
   (forall rs, ens_model (fun _ => None) n = Ok rs -> Forall fits_slice rs) ->
   exists rs o, ens_model (fun _ => None) n = Ok rs /\ search_full (fun _ => None) s p w = Ok o /\
-               consistent_report w n rs o.
+               consistent_report w n rs o /\ gen_clause n o.
 Proof.
-  intros s ts p w n Hr He. exact (search_full_stable s p w n (eval_complete_std s ts n Hr He)).
+  intros s ts p w n Hr He. exact (C14_search_stable_partial s p w n (eval_complete_std s ts n Hr He)).
 Qed.
 Print Assumptions C14_search_standard_expression_partial.
 
@@ -143,9 +148,18 @@ Theorem C14_one : forall w rs o, Forall (good_ares 1) rs -> consistent_report w 
 Proof. exact consistent_one. Qed.
 Print Assumptions C14_one.
 
-Theorem C14_gen_refuses_one : gen default_cfg ($"listing") ($"return  1" ++ [10%N]) = Err ($"empty").
-Proof. vm_compute. reflexivity. Qed.
+Theorem C14_gen_refuses_one : forall tmpl, gen default_cfg tmpl ($"return  1" ++ [10%N]) = Err ($"empty").
+Proof. exact gen_one. Qed.
 Print Assumptions C14_gen_refuses_one.
+
+(* ---- gen accepts the report of every valid non-empty program, with every builtin template (C04's
+   no-dangling theorem, C05's allocator theorem, C06's gen model; script_huge: see the header) ---- *)
+Theorem C14_gen_accepts : forall p c tmpl text,
+  evaluate p = Ok c -> NoDup c -> p <> [] -> Z.of_nat (length p) + 1 < 2 ^ 63 ->
+  In tmpl builtin_templates -> report p = Ok text ->
+  exists t, parse text = Ok t /\ (script_huge t = false -> exists out, gen default_cfg tmpl text = Ok out).
+Proof. exact report_gen. Qed.
+Print Assumptions C14_gen_accepts.
 
 (* ---- reproducibility: neither -p nor the schedule enters the result ---- *)
 Theorem C14_p_irrelevant : forall ens expr p p' w, 1 <= p -> 1 <= p' ->
@@ -162,7 +176,7 @@ Proof. exact search_schedule_irrelevant. Qed.
 Print Assumptions C14_schedule_irrelevant.
 
 (* ---- the full statement of the property over the models, for the record (NOT proved: see the header).
-   fmtb is `addchain fmt -b`, which has no model. ---- *)
+   fmtb is `addchain fmt -b`, which has no model; gen without the script_huge exclusion. ---- *)
 Definition C14_full (fmtb : list N -> outcome (list N)) : Prop :=
   forall orcs expr p w n,
   eval expr = Ok n -> 1 <= n -> Z.of_N (bitlen n) < 2 ^ 64 -> 1 <= p -> pos_weights w ->
@@ -216,6 +230,20 @@ Proof.
   intros rs H. vm_compute in H. injection H as <-.
   repeat (constructor; [reflexivity|]). constructor.
 Qed.
+
+(* gen on that script: the listing the real command prints *)
+Example C14_gen_example :
+  exists o out, search_full (fun _ => None) ($"2^5-3") 4 ex_w = Ok o /\
+    gen default_cfg ($"listing") (so_stdout o) = Ok out /\
+    out = $"tmp	t0
+double	t0	x
+add	t0	x	t0
+double	t0	t0
+add	t0	x	t0
+shift	t0	t0	2
+add	z	x	t0
+".
+Proof. eexists _, _. split; [vm_compute; reflexivity|]. split; [vm_compute; reflexivity|reflexivity]. Qed.
 
 (* failing invocations *)
 Example C14_failures :
